@@ -463,6 +463,21 @@ def response_entries(path):
     return _resp_entries(path, path.ok_value(), 0)
 
 
+def _flat_coll(how, x):
+    """entries for a loop that adds every element of `x` as one message: a chained / optional / literal sequence is taken apart
+    the way add_messages would see it (`refund.into_iter().chain(stored.msgs)` is the refund, then the stored messages)"""
+    n = 0
+    while x[0] == "call" and len(x[2]) == 1 and x[1].split("::")[-1] in ("into_iter", "iter", "collect", "from_iter", "cloned", "to_vec") and n < 6:
+        x, n = x[2][0], n + 1
+    if x[0] == "call" and x[1].split("::")[-1] == "chain" and len(x[2]) == 2:
+        return _flat_coll(how, x[2][0]) + _flat_coll(how, x[2][1])
+    if x[0] == "variant" and x[1] == OPTION:
+        return [(how, x[3][0][1])] if x[2] == "Some" else []
+    if x[0] == "list":
+        return [(how, y) for y in x[1]]
+    return [(how + "s", x)]
+
+
 def _resp_entries(path, r, depth):
     if depth > 6:
         return None
@@ -507,9 +522,17 @@ def _resp_entries(path, r, depth):
             if not (sv[0] == "resp" and len(sv[2]) == 2 and sv[2][0] == ("base", ("loopvar", lk, var, 0))
                     and sv[2][1][0] in ("msg", "submsg") and sv[2][1][1] == elem and sv[3] is None):
                 return None
-            return base + [(sv[2][1][0] + "s", coll)]
+            return base + _flat_coll(sv[2][1][0], coll)
         # zero iterations on this path: the kind of the entries is the collection's (a prepare_hooks result is sub-messages)
         subs = coll[0] == "call" and coll[1].endswith("prepare_hooks")
+        if not subs and coll[0] == "call" and coll[1].split("::")[-1] == "chain":
+            # a chained sequence: part by part (an optional element that is present makes this zero-iteration path infeasible,
+            # and reporting it keeps the path consistent with its one-iteration sibling)
+            out = []
+            for h, x in _flat_coll("msg", coll):
+                if h == "msg" or x[0] in ("field", "vfield"):
+                    out.append((h, x))
+            return base + out
         if ENGINE is not None and not subs:
             c0 = coll
             while c0[0] == "call" and c0[2] and c0[1].split("::")[-1] in ("iter", "into_iter", "cloned", "copied", "clone", "to_vec"):
@@ -521,7 +544,7 @@ def _resp_entries(path, r, depth):
                 # an iterator of unknown element type that took no element added nothing either way; only a collection that is
                 # recognisably the messages to relay keeps its name, so that zero- and one-iteration paths report the same thing
                 return base
-        return base + [("submsgs" if subs else "msgs", coll)]
+        return base + _flat_coll("submsg" if subs else "msg", coll)
     return None
 
 
